@@ -30,6 +30,10 @@ checks.update({
  "C13": gov("Byzantine submissions (wrong height/parent/timestamp/block root/state root, stale re-submission, sibling of the tip, valid controls) through AddBlock, ExecuteBlock+SubmitBlock and AddHeaders on any replica, interleaved with real histories: a committed block satisfies every acceptance rule evaluated by a reference (naive RFC 6962 block root); an uncommitted submission leaves every observable unchanged; lookups by height/hash return the committed block and transactions on every replica.", "5 C13"),
  "C14": gov("Byzantine seals (0 / threshold-1 / threshold signers, duplicated member, foreign keys, signatures over another hash, bookkeepers without signatures, former and future members around hand-overs, config-change blocks that fail later) for N=4..9 under both threshold rules (strict rule reached on main net through an overlay knob on the 20,000,000 literal): committed/indexed => distinct members of the set in force with valid signatures >= required; the set in force is unchanged by uncommitted submissions.", "5 C14"),
 })
+checks.update({
+ "C16": ("exploration", "E1", "deterministic simulation: repeated and replicated execution of sampled blocks, results compared field by field", "Every block of sampled histories is executed 6 more times on producer and replicas from the same prior state (fresh Go map iteration orders, different replicas, after restarts) and once more for the commit: write set, digest, state root, cross-state root, cross hashes and events must be identical, and replicas' stored roots equal the producer's. Decided dynamically on the paths the workloads drive.", "Dynamic only: the clause 'no reachable path consults the wall clock or a random source' is decided by divergence on exercised paths, not by static reachability (governance contracts; light-client paths are added by their own checks). Go's map-iteration seed cannot be pinned, so order-dependence is detected with probability 1-2^-k over k repetitions.", "5 C16"),
+ "C17": ("exploration", "E1", "deterministic simulation: write-set namespace monitor and key-layout attribution on every executed transaction", "Confinement is monitored on every transaction of every sampled history (all written keys lie under the contract-storage prefix of a registered contract). Unambiguity is checked only on the keys actually produced: each written key of the five governance/registry contracts must be attributable to exactly one record kind of its contract.", "PARTIAL: the 'for all parameter values' reading of key unambiguity needs a symbolic argument over the key constructors and is NOT claimed; header-sync/BTC record layouts are not attributed. Key layout table is the documented storage layout.", "5 C17"),
+})
 not_applicable = {
  "C03": "pure function of a list of hashes: no schedule, clock, fault, I/O or second party for a simulation to vary (DESIGN 5, not applicable)",
  "C28": "pure arithmetic on two headers; decided by differential testing or proof against the spec, not by schedules or faults",
